@@ -33,7 +33,7 @@ PROP = dict(
                'first aggregate decided by the report, jails 0 s / 600 s / not at all; over every history of proposals, payments and blocks no '
                'dispute gets two escrow records, every record belongs to a dispute whose fee is complete, prevote and failed disputes have none; '
                'more fee for a complete dispute, fee after the deadline and a repeated proposal are rejected.  Refuted for the code as found '
-               '(closed witnesses, reproduced on the real code on every run): F13, F34, F38, F39, F15, F18.',
+               '(closed witnesses): F13, F34, F38, F15 (repaired in /repo; the model of the repaired code is the one the implementation is compared with, and for F15 the repaired share count is proved to be worth exactly the amount for every exchange rate <= 1) and F39, F18 (open, reproduced on the real code on every run).',
     level_note='Trusted: Coq kernel; the harness projection (delegations, unbonding entries, validators, pool and escrow balances, records, '
                'jail fields, aggregates, disputes) and the restriction of the dispute histories to the horizon before any vote is tallied '
                '(no AddDisputeRound, no execution); x/staking Unbond is modelled from the v0.50.9 source (hooks and the self-delegation jail '
